@@ -91,8 +91,14 @@ pub fn tamper_proof(
             let mut b = [0u8; 32];
             b.copy_from_slice(&bytes[off..off + 32]);
             let pt = CompressedRistretto(b).decompress().expect("point element");
-            let d = env::sym_scalar(&format!("delta_{}_{}", idx, spec["name"].as_str().unwrap_or("0")), "delta");
-            let xpt = named_basis(params, &spec["basis"], &format!("tx_{}_{}", idx, e));
+            let shared = spec["shared"].as_bool().unwrap_or(false);
+            let dname = if shared {
+                format!("delta_shared_{}", spec["name"].as_str().unwrap_or("0"))
+            } else {
+                format!("delta_{}_{}", idx, spec["name"].as_str().unwrap_or("0"))
+            };
+            let d = env::sym_scalar(&dname, "delta");
+            let xpt = named_basis(params, &spec["basis"], &if shared { format!("tx_shared_{}", e) } else { format!("tx_{}_{}", idx, e) });
             let q = pt + xpt * d;
             bytes[off..off + 32].copy_from_slice(q.compress().as_bytes());
             info["delta"] = env::scalar_id(&d);
